@@ -58,8 +58,8 @@ ASSUMPTIONS = [
 ]
 QUICK = dict(cases=900, workers=2, timecap=45)
 THOROUGH = dict(cases=40000, workers=16, timecap=420)
-REQUIRED = {"diff_final": 2500, "diff_shadow": 10000, "diff_read": 2500, "inv_range": 40000, "inv_binwidth": 40000,
-            "calib": 80000, "set_accepted": 1200, "set_rejected": 120}
+REQUIRED = {"diff_final": 600, "diff_shadow": 3000, "diff_read": 700, "inv_range": 12000, "inv_binwidth": 12000,
+            "calib": 20000, "set_accepted": 350, "set_rejected": 40}
 
 _S = {"in_monitor": False, "memo": None}
 
